@@ -195,8 +195,10 @@ def concrete_playback(h, mem_gb, timeout):
     if cb:
         cmd += ["--cbmc-args"] + cb
     try:
+        # no RLIMIT_AS here: kani-driver itself needs a large address space to turn CBMC's trace into
+        # a playback test; the same instance was already solved within the memory limit
         p = subprocess.run(cmd, cwd=crate_dir(crate), env=crate_env(crate), capture_output=True, text=True,
-                           timeout=timeout, preexec_fn=_limit(mem_gb))
+                           timeout=timeout, preexec_fn=os.setsid)
     except subprocess.TimeoutExpired:
         return []
     out = p.stdout + p.stderr
